@@ -94,6 +94,9 @@ def overlay(seed: int = 0, root: str = REPO_ROOT, base: dict | None = None):
         # only names defined once in the package (a rename by attribute name must be unambiguous)
         if len(defs) != 1 or rng.random() < 0.6:
             continue
+        # the rename goes by attribute name: the name must not also be a data attribute somewhere
+        if any(name in attrs_ for attrs_ in BASELINE_ATTRS.values()):
+            continue
         if any(isinstance(n, ast.FunctionDef) and n.name == name and n is not defs[0][2] for t in trees.values() for n in ast.walk(t)):
             continue
         rel, cls, m = defs[0]
